@@ -15,6 +15,9 @@ RULE = (
     "class-definition-time dtype cross-check with matching and contradicting declared scalar types, also for two fields that share one annotation object; every construction judged by the oracle on the fields in declaration order. non-trivial = distinct line with "
     "at least one annotated field and one construction"
 )
+RULE += (" Also: family `unwrap` — the regenerated `Gen.unwrapTypeAlias` (run through lean/UnwrapRun.lean) against the real `unwrap_type_alias` on real typing objects "
+         "(classes, subscripted generics, bare and subscripted `type` aliases of typing / typing_extensions / numpy, alias of an alias), each also judged against what Python itself says the alias "
+         "stands for; and pydantic models whose numpy base type is spelled through an alias against the same model with the type written out, x four tensor classes.")
 RULE += " Also: abstract scalar classes (np.floating[Any], np.complexfloating[Any, Any], bare np.floating) as declared type x every class."
 
 BASES = {0: ["nd", "nd", "npt", "ndg"], 1: ["torch"], 2: ["jax"]}
@@ -285,3 +288,8 @@ def custom(run, tier):
     run.n_distinct_nontrivial += n // 2
     run.dist["nested"] += n
     run.coverage["nested_validations"] = n
+    # the alias-resolving helper of the base type (`npt.NDArray[...]` is a `type`-statement alias): regenerated model against the code on
+    # real typing objects, and the class-definition outcome of alias-spelled against written-out numpy base types
+    from checks import unwrapcommon
+
+    unwrapcommon.family(run, tier)
